@@ -1,0 +1,30 @@
+//! Hooks for the external verification harness. Only compiled with the
+//! `verif-hooks` feature; adds no behaviour, only access.
+
+use alloc::vec::Vec;
+
+use crate::scalar_mul::{NonAdjacentForm, VartimeMultiscalarMul};
+use crate::{BindingFactor, Ciphersuite, Element, Scalar};
+
+/// Build a [`BindingFactor`] from a scalar.
+pub fn binding_factor_from_scalar<C: Ciphersuite>(scalar: Scalar<C>) -> BindingFactor<C> {
+    BindingFactor(scalar)
+}
+
+/// Return the scalar inside a [`BindingFactor`].
+pub fn binding_factor_to_scalar<C: Ciphersuite>(bf: &BindingFactor<C>) -> Scalar<C> {
+    bf.0
+}
+
+/// The width-`w` non-adjacent form of a scalar (`scalar_mul::NonAdjacentForm`).
+pub fn non_adjacent_form<C: Ciphersuite>(scalar: &Scalar<C>, w: usize) -> Vec<i8> {
+    NonAdjacentForm::<C>::non_adjacent_form(scalar, w)
+}
+
+/// Variable-time multiscalar multiplication (`scalar_mul::VartimeMultiscalarMul`).
+pub fn vartime_multiscalar_mul<C: Ciphersuite>(
+    scalars: Vec<Scalar<C>>,
+    elements: Vec<Element<C>>,
+) -> Element<C> {
+    VartimeMultiscalarMul::<C>::vartime_multiscalar_mul(scalars, elements)
+}
